@@ -33,8 +33,20 @@ def run(mid, props):
     st = sh(["git", "-C", "/repo", "status", "--porcelain", "--untracked-files=no"]).stdout.strip()
     if st:
         print("refusing: /repo is dirty:\n" + st); sys.exit(2)
+    lock = os.path.join(V, "build", "repo.lock")
+    while os.path.exists(lock):
+        time.sleep(5)
+    open(lock, "w").write(mid)
+    os.environ["VERIF_SEEDED"] = "1"
+    # let check runs that started before the lock finish on the clean tree
+    for _ in range(720):
+        ps = sh(["pgrep", "-f", "check.py C"]).stdout.split()
+        if not [x for x in ps if int(x) != os.getpid()]:
+            break
+        time.sleep(5)
     p = sh(["git", "-C", "/repo", "apply", os.path.join(d, "patch.diff")])
     if p.returncode:
+        os.remove(lock)
         print("patch does not apply:", p.stderr); sys.exit(2)
     try:
         for pid in props:
@@ -61,6 +73,8 @@ def run(mid, props):
             print(mid, pid, "CAUGHT" if caught else "MISSED", f"{time.time()-t0:.0f}s", [l[:160] for l in lines])
     finally:
         sh(["git", "-C", "/repo", "checkout", "--", "."])
+        if os.path.exists(lock):
+            os.remove(lock)
         json.dump(meta, open(os.path.join(d, "meta.json"), "w"), indent=1, ensure_ascii=False)
 
 if sys.argv[1] == "import":
